@@ -1,7 +1,10 @@
 //! C07 — the same abstract graph in every storage type: every algorithm and walker whose trait bounds
 //! the type satisfies is run on every encoding; answers are printed in abstract ids, canonicalised to
 //! what the property determines (unique answers exactly, objective values otherwise).
-//! Line format:  run <algo> <args> enc=<name> => <answer>     (the Lean driver compares across encodings)
+//! Line format:  view enc=<name> <graph-line fields> er=<s:t:eid;..> nbrs=<a:t,t;..> => ok   (one per encoding: its iteration
+//!                orders, to_index, node_bound, edge_references and neighbors in abstract ids; the Lean driver evaluates
+//!                the hypotheses of the theorem C07_<algo>_checked on the two views of every comparison it makes)
+//!               run <algo> <args> enc=<name> => <answer>     (the Lean driver compares across encodings)
 use crate::common::*;
 use crate::graphs::*;
 use crate::rng::Rng;
@@ -27,6 +30,25 @@ pub struct Q {
     pub s: usize,
     pub t: usize,
     pub k: usize,
+}
+
+
+/// `view enc=<name> d=… nb=… nodes=… ix=… edges=… out=… in=… [hasin=0] er=<s:t:eid;…>` — this encoding's
+/// iteration orders / index assignment in ABSTRACT ids (the `graph` line format of graphs.rs without its
+/// first word) plus `edge_references()` in iteration order.  The driver evaluates the hypotheses of the
+/// `C07_<A>_checked` theorems on the views of the two encodings of every comparison it makes.
+fn emit_view<G>(ctx: &mut Ctx, enc: &str, graph_line: String, g: G, abs: Abs<G::NodeId>, eid: &dyn Fn(G::EdgeRef, &mut Vec<usize>) -> usize)
+where
+    G: IntoEdgeReferences + IntoNeighbors + IntoNodeIdentifiers + Copy,
+{
+    let mut used = Vec::new();
+    let er: Vec<String> = g.edge_references().map(|e| format!("{}:{}:{}", abs(e.source()), abs(e.target()), eid(e, &mut used))).collect();
+    let er = if er.is_empty() { "-".to_string() } else { er.join(";") };
+    // `neighbors(a)` (what the walkers iterate): must be the targets of the `out` row of `a` (checked by the driver)
+    let nb: Vec<String> = g.node_identifiers().map(|a| format!("{}:{}", abs(a), list(g.neighbors(a).map(|b| abs(b))))).collect();
+    let nb = if nb.is_empty() { "-".to_string() } else { nb.join(";") };
+    let body = graph_line.strip_prefix("graph ").unwrap_or(&graph_line).to_string();
+    ctx.line(&format!("view enc={} {} er={} nbrs={}", enc, body, er, nb), "ok");
 }
 
 // ---- walkers ------------------------------------------------------------------------------------
@@ -115,8 +137,27 @@ where
     if nonneg {
         let r = catch(|| { let m = algo::dijkstra(g, conc(q.s), None, |e| *e.weight()); let mut v: Vec<(usize, i64)> = m.into_iter().map(|(n, d)| (abs(n), d)).collect(); v.sort(); list(v.iter().map(|(a, b)| format!("{}:{}", a, b))) });
         ctx.line(&format!("run dijkstra {} enc={}", q.s, enc), &ans(r));
-        let r = catch(|| match algo::astar(g, conc(q.s), |n| n == conc(q.t), |e| *e.weight(), |_| 0) { Some((c, p)) => format!("cost {} from {} to {}", c, abs(p[0]), abs(*p.last().unwrap())), None => "none".into() });
+        let r = catch(|| match algo::astar(g, conc(q.s), |n| n == conc(q.t), |e| *e.weight(), |_| 0) {
+            Some((c, p)) => {
+                // the returned path runs along edges whose costs can sum to the returned cost (parallel edges: any choice)
+                let mut sums: HashSet<i64> = HashSet::new();
+                sums.insert(0);
+                for w in p.windows(2) {
+                    let mut next = HashSet::new();
+                    for e in g.edges(w[0]) {
+                        let other = if e.source() == w[0] { e.target() } else { e.source() };
+                        if other == w[1] { for s in &sums { next.insert(s + *e.weight()); } }
+                    }
+                    sums = next;
+                }
+                format!("cost {} from {} to {} pathok {}", c, abs(p[0]), abs(*p.last().unwrap()), sums.contains(&c))
+            }
+            None => "none".into(),
+        });
         ctx.line(&format!("run astar {} {} enc={}", q.s, q.t, enc), &ans(r));
+        // goal-directed k_shortest_path: only the goal's entry is determined (C07_kshortest_goal_checked)
+        let r = catch(|| { let m = algo::k_shortest_path(g, conc(q.s), Some(conc(q.t)), q.k, |e| *e.weight()); match m.get(&conc(q.t)) { Some(d) => d.to_string(), None => "none".into() } });
+        ctx.line(&format!("run k_shortest_goal {} {} {} enc={}", q.s, q.t, q.k, enc), &ans(r));
         let r = catch(|| { let m = algo::k_shortest_path(g, conc(q.s), None, q.k, |e| *e.weight()); let mut v: Vec<(usize, i64)> = m.into_iter().map(|(n, d)| (abs(n), d)).collect(); v.sort(); list(v.iter().map(|(a, b)| format!("{}:{}", a, b))) });
         ctx.line(&format!("run k_shortest {} {} enc={}", q.s, q.k, enc), &ans(r));
     }
@@ -125,6 +166,37 @@ where
         Err(_) => "negcycle".into(),
     });
     ctx.line(&format!("run spfa {} enc={}", q.s, enc), &ans(r));
+}
+
+/// bellman_ford on an `f64` copy of the encoding (the function needs a `FloatMeasure`): distances as integers, the
+/// predecessor table reduced to its defining property (C07_bellman_ford_checked)
+fn w_bf<G>(ctx: &mut Ctx, enc: &str, g: G, q: &Q, abs: Abs<G::NodeId>, conc: Conc<G::NodeId>)
+where
+    G: NodeCount + IntoNodeIdentifiers + IntoEdges + NodeIndexable + GraphProp + Copy + Data<EdgeWeight = f64>,
+    G::NodeId: Eq + Hash + Copy,
+{
+    let r = catch(|| match algo::bellman_ford(g, conc(q.s)) {
+        Ok(p) => {
+            let nodes: Vec<G::NodeId> = g.node_identifiers().collect();
+            let mut ok = true;
+            for &n in &nodes {
+                let dn = p.distances[g.to_index(n)];
+                match p.predecessors[g.to_index(n)] {
+                    None => { if n != conc(q.s) && dn.is_finite() { ok = false; } }
+                    Some(pn) => {
+                        let dp = p.distances[g.to_index(pn)];
+                        let tight = g.edges(pn).any(|e| { let other = if e.source() == pn { e.target() } else { e.source() }; other == n && dp + *e.weight() == dn });
+                        if !tight || n == conc(q.s) { ok = false; }
+                    }
+                }
+            }
+            let mut v: Vec<(usize, f64)> = nodes.iter().map(|&n| (abs(n), p.distances[g.to_index(n)])).collect();
+            v.sort_by(|a, b| a.0.cmp(&b.0));
+            format!("{} predok={}", list(v.iter().map(|(a, b)| format!("{}:{}", a, if b.is_finite() { (*b as i64).to_string() } else { "inf".to_string() }))), ok)
+        }
+        Err(_) => "negcycle".into(),
+    });
+    ctx.line(&format!("run bellman_ford {} enc={}", q.s, enc), &ans(r));
 }
 
 fn w_floyd<G>(ctx: &mut Ctx, enc: &str, g: G, abs: Abs<G::NodeId>)
@@ -137,6 +209,40 @@ where
         Err(_) => "negcycle".into(),
     });
     ctx.line(&format!("run floyd enc={}", enc), &ans(r));
+    // floyd_warshall_path: the distances as above; the `prev` matrix is not unique (ties), so it is reduced to its
+    // defining property: `prev[i][j] = q` is the tail of an edge `q -> j` with `dist[i][q] + w = dist[i][j]`, and it
+    // is absent exactly for `j = i` and the pairs without a walk (C07_floyd_warshall_path_checked)
+    let r = catch(|| match algo::floyd_warshall::floyd_warshall_path(g, |e| *e.weight()) {
+        Ok((m, prev)) => {
+            let nodes: Vec<G::NodeId> = g.node_identifiers().collect();
+            let mut ok = true;
+            for &i in &nodes {
+                for &j in &nodes {
+                    let dij = *m.get(&(i, j)).unwrap_or(&i64::MAX);
+                    let pq = prev[g.to_index(i)][g.to_index(j)];
+                    if i == j { continue; }
+                    match pq {
+                        None => { if dij != i64::MAX { ok = false; } }
+                        Some(qi) => {
+                            let qn = g.from_index(qi);
+                            let diq = *m.get(&(i, qn)).unwrap_or(&i64::MAX);
+                            let tight = g.edge_references().any(|e| {
+                                let fwd = e.source() == qn && e.target() == j;
+                                let bwd = !g.is_directed() && e.target() == qn && e.source() == j;
+                                (fwd || bwd) && diq != i64::MAX && diq + *e.weight() == dij
+                            });
+                            if !tight { ok = false; }
+                        }
+                    }
+                }
+            }
+            let mut v: Vec<(usize, usize, i64)> = m.into_iter().map(|((a, b), d)| (abs(a), abs(b), d)).collect();
+            v.sort();
+            format!("{} prevok={}", list(v.iter().map(|(a, b, d)| format!("{}>{}:{}", a, b, if *d == i64::MAX { "inf".to_string() } else { d.to_string() }))), ok)
+        }
+        Err(_) => "negcycle".into(),
+    });
+    ctx.line(&format!("run floyd_path enc={}", enc), &ans(r));
     let r = catch(|| algo::connected_components(g).to_string());
     ctx.line(&format!("run connected_components enc={}", enc), &ans(r));
 }
@@ -259,6 +365,7 @@ fn suite<Ty: EdgeType>(ctx: &mut Ctx, rng: &mut Rng, ag: &AG, q: &Q, nonneg: boo
             let enc = format!("graph{}", variant);
             let abs = |x: petgraph::graph::NodeIndex<u32>| g[x];
             let conc = |a: usize| petgraph::graph::NodeIndex::<u32>::new(inv[a]);
+            emit_view(ctx, &enc, view_line(ag, g, &abs, &|er, _| e.eid[EdgeRef::id(&er).index()]), g, &abs, &|er, _| e.eid[EdgeRef::id(&er).index()]);
             w_sets(ctx, &enc, g, q, &abs, &conc);
             w_directed(ctx, &enc, g, q, &abs, &conc);
             w_tarjan(ctx, &enc, g, &abs);
@@ -270,6 +377,7 @@ fn suite<Ty: EdgeType>(ctx: &mut Ctx, rng: &mut Rng, ag: &AG, q: &Q, nonneg: boo
             if simple && !ag.has_loop() && !ag.directed { w_cliques(ctx, &enc, g, &abs); }
             w_pagerank(ctx, &enc, g, &abs);
             if nonneg && ag.directed { let gf = g.map(|_, n| *n, |_, w| *w as u32); w_flow(ctx, &enc, &gf, q, &conc); }
+            { let gb = g.map(|_, n| *n, |_, w| *w as f64); let absb = |x: petgraph::graph::NodeIndex<u32>| gb[x]; w_bf(ctx, &enc, &gb, q, &absb, &conc); }
         }
         {
             let e = enc_stable::<Ty, u32>(rng, ag, &node_order, &edge_order, true);
@@ -278,6 +386,7 @@ fn suite<Ty: EdgeType>(ctx: &mut Ctx, rng: &mut Rng, ag: &AG, q: &Q, nonneg: boo
             let cidx: Vec<_> = { let mut v = vec![petgraph::graph::NodeIndex::<u32>::new(0); n]; for x in g.node_indices() { v[g[x]] = x; } v };
             let abs = |x: petgraph::graph::NodeIndex<u32>| g[x];
             let conc = |a: usize| cidx[a];
+            emit_view(ctx, &enc, view_line(ag, g, &abs, &|er, _| e.eid[EdgeRef::id(&er).index()]), g, &abs, &|er, _| e.eid[EdgeRef::id(&er).index()]);
             w_sets(ctx, &enc, g, q, &abs, &conc);
             w_directed(ctx, &enc, g, q, &abs, &conc);
             w_tarjan(ctx, &enc, g, &abs);
@@ -288,6 +397,7 @@ fn suite<Ty: EdgeType>(ctx: &mut Ctx, rng: &mut Rng, ag: &AG, q: &Q, nonneg: boo
             if simple && !ag.has_loop() && !ag.directed { w_cliques(ctx, &enc, g, &abs); }
             w_pagerank(ctx, &enc, g, &abs);
             if nonneg && ag.directed { let gf = g.map(|_, n| *n, |_, w| *w as u32); w_flow(ctx, &enc, &gf, q, &conc); }
+            { let gb = g.map(|_, n| *n, |_, w| *w as f64); let absb = |x: petgraph::graph::NodeIndex<u32>| gb[x]; w_bf(ctx, &enc, &gb, q, &absb, &conc); }
         }
     }
     if n <= 200 {
@@ -299,6 +409,7 @@ fn suite<Ty: EdgeType>(ctx: &mut Ctx, rng: &mut Rng, ag: &AG, q: &Q, nonneg: boo
         let g = &e.g;
         let abs = |x: petgraph::graph::NodeIndex<u8>| g[x];
         let conc = |a: usize| petgraph::graph::NodeIndex::<u8>::new(inv[a]);
+        emit_view(ctx, "graph-u8", view_line(ag, g, &abs, &|er, _| e.eid[EdgeRef::id(&er).index()]), g, &abs, &|er, _| e.eid[EdgeRef::id(&er).index()]);
         w_sets(ctx, "graph-u8", g, q, &abs, &conc);
         w_directed(ctx, "graph-u8", g, q, &abs, &conc);
         w_paths(ctx, "graph-u8", g, q, &abs, &conc, nonneg);
@@ -314,6 +425,7 @@ fn suite<Ty: EdgeType>(ctx: &mut Ctx, rng: &mut Rng, ag: &AG, q: &Q, nonneg: boo
             let g = &g0;
             let abs = |x: usize| x;
             let conc = |a: usize| a;
+            emit_view(ctx, "map", view_line(ag, g, &abs, &|er, used| eid_by_lookup(ag, EdgeRef::source(&er), EdgeRef::target(&er), *EdgeRef::weight(&er), used)), g, &abs, &|er, used| eid_by_lookup(ag, EdgeRef::source(&er), EdgeRef::target(&er), *EdgeRef::weight(&er), used));
             w_sets(ctx, "map", g, q, &abs, &conc);
             w_directed(ctx, "map", g, q, &abs, &conc);
             w_tarjan(ctx, "map", g, &abs);
@@ -330,6 +442,7 @@ fn suite<Ty: EdgeType>(ctx: &mut Ctx, rng: &mut Rng, ag: &AG, q: &Q, nonneg: boo
             let abs = |x: petgraph::matrix_graph::NodeIndex| *g.node_weight(x);
             let conc = |a: usize| cidx[a];
             let enc = if NodeIndexable::node_bound(&g) != g.node_count() { "matrix+holes" } else { "matrix" };
+            emit_view(ctx, enc, view_line_out_only(ag, g, &abs, &|er, used| eid_by_lookup(ag, abs(EdgeRef::source(&er)), abs(EdgeRef::target(&er)), *EdgeRef::weight(&er), used)), g, &abs, &|er, used| eid_by_lookup(ag, abs(EdgeRef::source(&er)), abs(EdgeRef::target(&er)), *EdgeRef::weight(&er), used));
             w_sets(ctx, enc, g, q, &abs, &conc);
             w_tarjan(ctx, enc, g, &abs);
             w_paths(ctx, enc, g, q, &abs, &conc, nonneg);
@@ -343,6 +456,7 @@ fn suite<Ty: EdgeType>(ctx: &mut Ctx, rng: &mut Rng, ag: &AG, q: &Q, nonneg: boo
             let g = &g0;
             let abs = |x: u32| g[x];
             let conc = |a: usize| inv[a] as u32;
+            emit_view(ctx, "csr", view_line_out_only(ag, g, &abs, &|er, used| eid_by_lookup(ag, abs(EdgeRef::source(&er)), abs(EdgeRef::target(&er)), *EdgeRef::weight(&er), used)), g, &abs, &|er, used| eid_by_lookup(ag, abs(EdgeRef::source(&er)), abs(EdgeRef::target(&er)), *EdgeRef::weight(&er), used));
             w_sets(ctx, "csr", g, q, &abs, &conc);
             w_tarjan(ctx, "csr", g, &abs);
             w_paths(ctx, "csr", g, q, &abs, &conc, nonneg);
@@ -360,6 +474,7 @@ fn suite<Ty: EdgeType>(ctx: &mut Ctx, rng: &mut Rng, ag: &AG, q: &Q, nonneg: boo
             let g = &g0;
             let abs = |x: u32| node_order[x as usize];
             let conc = |a: usize| inv[a] as u32;
+            emit_view(ctx, "list", view_line_out_only(ag, g, &abs, &|er, used| eid_by_lookup(ag, abs(EdgeRef::source(&er)), abs(EdgeRef::target(&er)), *EdgeRef::weight(&er), used)), g, &abs, &|er, used| eid_by_lookup(ag, abs(EdgeRef::source(&er)), abs(EdgeRef::target(&er)), *EdgeRef::weight(&er), used));
             w_sets(ctx, "list", g, q, &abs, &conc);
             w_tarjan(ctx, "list", g, &abs);
             w_paths(ctx, "list", g, q, &abs, &conc, nonneg);
@@ -373,10 +488,21 @@ fn suite<Ty: EdgeType>(ctx: &mut Ctx, rng: &mut Rng, ag: &AG, q: &Q, nonneg: boo
 fn directed_only(ctx: &mut Ctx, rng: &mut Rng, ag: &AG) {
     let node_order = random_perm(rng, ag.n);
     let edge_order = random_perm(rng, ag.edges.len());
-    let e = enc_graph::<Directed, u32>(ag, &node_order, &edge_order);
-    w_fas(ctx, "graph0", &e.g);
-    let e = enc_stable::<Directed, u32>(rng, ag, &node_order, &edge_order, true);
-    w_fas(ctx, "stable0", &e.g);
+    {
+        let e = enc_graph::<Directed, u32>(ag, &node_order, &edge_order);
+        let g = &e.g;
+        let abs = |x: petgraph::graph::NodeIndex<u32>| g[x];
+        emit_view(ctx, "fas-graph", view_line(ag, g, &abs, &|er, _| e.eid[EdgeRef::id(&er).index()]), g, &abs, &|er, _| e.eid[EdgeRef::id(&er).index()]);
+        w_fas(ctx, "fas-graph", g);
+    }
+    {
+        let e = enc_stable::<Directed, u32>(rng, ag, &node_order, &edge_order, true);
+        let g = &e.g;
+        let abs = |x: petgraph::graph::NodeIndex<u32>| g[x];
+        let enc = format!("fas-stable{}", if g.node_bound() != g.node_count() { "+holes" } else { "" });
+        emit_view(ctx, &enc, view_line(ag, g, &abs, &|er, _| e.eid[EdgeRef::id(&er).index()]), g, &abs, &|er, _| e.eid[EdgeRef::id(&er).index()]);
+        w_fas(ctx, &enc, g);
+    }
 }
 
 pub fn run(ctx: &mut Ctx, case: u64) {
